@@ -115,6 +115,17 @@ func (m c16) Directed(c *Ctx) {
 	c.Name = "small-scope-sweep"
 	m.sweep(c, []string{"a", "b", "aa", "ab", "ba", "bb"})
 	m.sweep(c, []string{"a", "a_a", "a_", "_a", "a-a", "-"})
+	m.sweep(c, []string{"a", "a a", "a ", " a", " ", "\""})
+	c.Name = "witness-rels-space-collision"
+	m.schemaCase(c, &SchemaSpec{Types: []TypeSpec{
+		{Name: "user", Rels: []RelSpec{{Name: "best friend", ToType: "profile"}, {Name: "best", ToType: "friend profile"}}},
+		{Name: "profile"}, {Name: "friend profile"},
+	}}, NewRNG(3))
+	m.schemaCase(c, &SchemaSpec{Types: []TypeSpec{
+		{Name: "a", Rels: []RelSpec{{Name: "x y", ToType: "z", ToName: "w"}, {Name: "x", ToType: "y z", ToName: "w"}}},
+		{Name: "z", Rels: []RelSpec{{Name: "w", ToType: "a", ToName: "x y"}}},
+		{Name: "y z", Rels: []RelSpec{{Name: "w", ToType: "a", ToName: "x"}}},
+	}}, NewRNG(4))
 	c.Extra["exhaustive_subspaces"] = []string{"all Rel values with FromType, FromName, ToType in {a,b,aa,ab,ba,bb}, ToName in the same set or empty, all 4 cardinality combinations (every concatenation collision of that scope)", "the same over {a,a_a,a_,_a,a-a,-}"}
 	// regression witnesses
 	c.Name = "witness-rels-underscore-collision"
@@ -129,7 +140,7 @@ func (m c16) Directed(c *Ctx) {
 	}}, NewRNG(2))
 }
 
-var c16Names = []string{"a", "b", "ab", "bc", "c", "a_b", "b_c", "a-b", "abc", "_", "a_", "_b"}
+var c16Names = []string{"a", "b", "ab", "bc", "c", "a_b", "b_c", "a-b", "abc", "_", "a_", "_b", "a b", "b c", " ", "a ", " b", "a b c", "\"", "a\" \"b"}
 
 func (m c16) Case(c *Ctx, r *RNG) {
 	// random Rel values
